@@ -1,5 +1,7 @@
 mod c04;
+mod c13;
 mod c15;
+mod c16;
 mod common;
 mod gen;
 mod inputs;
@@ -33,6 +35,9 @@ fn run_generic(mode: Mode, args: &Args, prefix: &str, rule: &str) {
 		let cx = &mut cx;
 		for_all_types!(run_type, cx);
 	}
+	if mode == Mode::C18 && args.only.is_none() {
+		gen::len_cases(&mut cx);
+	}
 	cx.stats.add("registry_types", cx.ntypes as u64);
 	cx.stats.add("skipped/case-too-big-for-budget", cx.cases.skipped_big as u64);
 	if args.thorough {
@@ -54,6 +59,8 @@ fn main() {
 	match args[1].as_str() {
 		"c04" => c04::run(&a),
 		"c15" => c15::run(&a),
+		"c13" => c13::run(&a),
+		"c16" => c16::run(&a),
 		"c01" => run_generic(Mode::C01, &a, "c01", gen_rule),
 		"c02" => run_generic(Mode::C02, &a, "c02", gen_rule),
 		"c03" => run_generic(Mode::C03, &a, "c03", gen_rule),
